@@ -11,7 +11,7 @@ FRAMES = 8
 PER_CASE = 40
 RULE = ('literal bodies enumerated exhaustively up to length N over %d byte-class representatives, in double-quoted, single-quoted and '
         'unquoted form, then random longer bodies; framed as  s = <literal> [comment]  or  l = {<literal>[, <literal>]}, with LF or CRLF line ends; bodies with a '
-        '${...} run under 4 environments (unset, set, empty, meta characters), long values (45 / 296 bytes) and long defaults (20 bytes .. 20 KB) at every scratch-buffer offset; oracle = model_lex (decoder written from the statement). '
+        '${...} run under 4 environments (unset, set, empty, meta characters), long values (45 / 296 bytes) and long defaults (20 bytes .. 20 KB) at every scratch-buffer offset; oracle = model_lex (decoder written from the statement); plus agreement cases: the same ${...} bare and inside double quotes in one text must give equal values under 6 environments (covers the corners the model leaves open). '
         'non-trivial: body contains an escape, substitution, quote or newline; distinct = (form, body, env, framing)' % len(CLASSES))
 
 
@@ -48,6 +48,54 @@ def seq_specs(tier, seed):
     for _ in range(2000 if tier == 'quick' else 50000):
         k = rng.randint(4, 6)
         yield {'seq': [rng.randrange(n) for _ in range(k)], 'env': rng.choice(['set', 'unset', 'meta']), 'gaps': [rng.randrange(len(SEQ_GAPS)) for _ in range(k)]}
+
+
+AGREE = ['${a:-dflt}', '${a}', '${a:-}', '${a:-d:e}', '${a:--}', '${a:-two words}', '${a:-' + 'L' * 300 + '}']
+
+
+def agree_specs():
+    """the same ${...} written bare and inside double quotes in ONE text: the statement gives both contexts the same replacement rule,
+    so the two values must be equal whatever the rule is in the corners the model leaves open (variable set but empty, with a default)"""
+    for b in range(len(AGREE)):
+        for env in ('unset', 'set', 'empty', 'meta', 'mid', 'long'):
+            for order in (0, 1):
+                yield {'agree': b, 'env': env, 'order': order}
+
+
+def agree_script(spec):
+    body = AGREE[spec['agree']]
+    L = ['schema 0', opt_line('u', 'str', dstr='DEFAULT-U'), opt_line('q', 'str', dstr='DEFAULT-Q'), 'endschema']
+    L.append('unsetenv %s' % hx('a') if spec['env'] == 'unset' else 'setenv %s %s' % (hx('a'), hx(ENVVALS[spec['env']])))
+    lines = ['u = %s' % body, 'q = "%s"' % body]
+    if spec['order']:
+        lines.reverse()
+    L += ['init 0 0 0', 'parse_buf 0 %s' % hx('\n'.join(lines) + '\n'), 'get 0 str %s 0' % hx('u'), 'get 0 str %s 0' % hx('q'), 'free 0', 'unsetenv %s' % hx('a')]
+    return '\n'.join(L)
+
+
+def agree_judge(spec, events, death):
+    v = Verdict()
+    body = AGREE[spec['agree']]
+    if death is not None:
+        v.bad('crash:%s@%s:agree' % (death['kind'], death['where']), '%r under env %s: %s' % (body, spec['env'], death['text'][-500:]))
+        return v
+    r = [e for e in events if e.get('ev') == 'r' and e.get('op') == 'parse_buf']
+    g = [e for e in events if e.get('ev') == 'get']
+    v.nontrivial = True
+    v.notes['agreement_cases'] = 1
+    if not r or len(g) < 2:
+        v.bad('harness:short-log', 'events missing')
+    elif r[0]['rc'] != 0:
+        if ' ' in body and spec['env'] in ('unset', 'empty'):
+            v.skipped = True      # a bare ${...:-two words}: whether the blank ends the bare token is not fixed
+        else:
+            v.bad('agree:rejected', 'text with %r bare and quoted is rejected (env %s)' % (body, spec['env']))
+    elif g[0]['v'] != g[1]['v']:
+        if ' ' in body:
+            v.skipped = True
+        else:
+            v.bad('agree:bare-vs-quoted:%s' % spec['env'], '%r gives %r written bare and %r inside double quotes (variable %s)' % (body, unhx(g[0]['v']), unhx(g[1]['v']), spec['env']))
+    return v
 
 
 def seq_script(spec):
@@ -91,6 +139,8 @@ def seq_judge(spec, events, death):
 
 
 def script(spec):
+    if 'agree' in spec:
+        return agree_script(spec)
     if 'seq' in spec:
         return seq_script(spec)
     L = ['schema 0', opt_line('s', 'str', dstr='DEFAULT'), opt_line('l', 'str', flags=core.F_LIST, dparsed='{DEFAULT}'), 'endschema']
@@ -115,6 +165,8 @@ def script(spec):
 
 
 def judge(spec, events, death):
+    if 'agree' in spec:
+        return agree_judge(spec, events, death)
     if 'seq' in spec:
         return seq_judge(spec, events, death)
     v = Verdict()
@@ -248,6 +300,7 @@ def lit_specs(tier, seed):
 
 def gen(tier, seed):
     yield from seq_specs(tier, seed)
+    yield from agree_specs()
     for ch in core.chunks(lit_specs(tier, seed), PER_CASE):
         yield {'lits': ch}
 
@@ -258,8 +311,8 @@ def run(tier, seed, bindirs):
     lj = res.extra.get('literals_judged', 0)
     nt = res.extra.get('nontrivial_literals', set())
     # evidence counts literals, not 40-literal cases
-    res.evaluations = lj + res.extra.get('not_judged_skip', 0) + res.extra.get('not_judged_unspec', 0) + res.extra.get('sequence_cases', 0)
-    res.judged = lj + res.extra.get('sequence_cases', 0)
+    res.evaluations = lj + res.extra.get('not_judged_skip', 0) + res.extra.get('not_judged_unspec', 0) + res.extra.get('sequence_cases', 0) + res.extra.get('agreement_cases', 0)
+    res.judged = lj + res.extra.get('sequence_cases', 0) + res.extra.get('agreement_cases', 0)
     res.nontrivial = nt
     res.extra.pop('nontrivial_literals', None)
     return core.finish(PROP, tier, seed, 'exploration', res, RULE, t0, floor=10000,
